@@ -27,6 +27,13 @@ type Cell struct {
 	// request, DNS requests): "" = the victim mapping's target T (dns: per Target), absent = field omitted,
 	// T | S | L = that client's id. For SOCKS5 it is an identity field like any other: it must have no effect.
 	BodyTarget string `json:"body_target,omitempty"`
+	// When (response forms with Pending): at which point of the pending request the foreign answer arrives:
+	// "" = after the request was written to the target, before = before the request is issued,
+	// during = while the request is being written to a back-pressured target connection.
+	When string `json:"when,omitempty"`
+	// MState: state the victim's mappings (L->T) are put into before the command: "" = active,
+	// revoked | expired | inactive (the record exists but IsValid() is false).
+	MState string `json:"mapping_state,omitempty"`
 }
 
 type meta struct {
@@ -294,6 +301,12 @@ func (w *world) step(c *Cell) (res stepResult) {
 		return
 	}
 	rid := w.idOf(c.Identity)
+	if c.MState != "" {
+		if err := w.setMappingState(c.MState); err != nil {
+			res.f = &fail{"C11/harness/setup-failed", err.Error()}
+			return
+		}
+	}
 	if sp.Resp {
 		return w.stepResponse(sp, c, rq, rid)
 	}
@@ -598,6 +611,20 @@ func (w *world) judge(sp *spec, c *Cell, rid int64, m *meta, before, after snaps
 			return bad("packet-delivered-to-other-client", fmt.Sprintf("requester %s(id %d) caused delivery to %s: %s", c.Identity, rid, n, pktString(out.others[n][0])))
 		}
 	}
+	// ---- an operation on an existing object of other clients is not reported as done -----------------
+	if !party && objExists && (sp.Type == packet.MappingGet || sp.Type == packet.MappingDelete || sp.Type == packet.HTTPDomainDelete) {
+		for _, p := range out.replies {
+			if p.CommandPacket == nil || !p.PacketType.IsCommandResp() {
+				continue
+			}
+			var env struct {
+				Success bool `json:"success"`
+			}
+			if json.Unmarshal([]byte(p.CommandPacket.CommandBody), &env) == nil && env.Success {
+				return bad("success-reported-for-object-of-other-client", fmt.Sprintf("requester %s(id %d) is not a party of the named object (mapping state %q) and was answered %s", c.Identity, rid, c.MState, trunc(p.CommandPacket.CommandBody, 300)))
+			}
+		}
+	}
 	// ---- tolerated and counted ------------------------------------------------------------------
 	if !authed && strings.Contains(rt, `"success":true`) && !sp.Public {
 		res.recorded = append(res.recorded, "recorded:success-true-to-unauthenticated:"+sp.Name)
@@ -664,7 +691,15 @@ func (w *world) stepResponse(sp *spec, c *Cell, rq *miniserver.Client, rid int64
 	isTarget := c.Identity == "T"
 	cls := idClass(c.Identity, isTarget)
 	res.class = fmt.Sprintf("%s/%s/pending=%v", sp.Name, cls, c.Pending)
+	if c.Pending && c.When != "" {
+		res.class += "/answer-arrives-" + c.When + "-write"
+	}
 	res.nontriv = c.Pending && !isTarget
+	if c.Pending && c.When != "" && isTarget {
+		// the real target cannot answer a request it has not received yet
+		res.skipped = true
+		return
+	}
 	if c.Pending && c.Identity == "L" {
 		// the asker's own connection is busy inside the synchronous wait: it cannot inject on the same connection
 		res.skipped = true
@@ -725,6 +760,14 @@ func (w *world) stepResponse(sp *spec, c *Cell, rq *miniserver.Client, rid int64
 			res.f = &fail{"C11/harness/setup-failed", err.Error()}
 			return
 		}
+		if c.When == "before" {
+			out = inject(pendID) // the foreign answer is there before the request exists
+		}
+		if c.When == "during" {
+			// a back-pressured link to the target: the server's write of the request blocks after its first byte
+			tc.Near.SetMaxBuffered(1)
+			defer tc.Near.SetMaxBuffered(0)
+		}
 		done := make(chan string, 1)
 		var wantType packet.CommandType
 		switch sp.Type {
@@ -753,9 +796,29 @@ func (w *world) stepResponse(sp *spec, c *Cell, rq *miniserver.Client, rid int64
 				done <- string(r.Body)
 			}()
 		}
-		// the request must show up on T's connection (or the asker is turned away at once)
 		deadline := time.Now().Add(recvPatience)
 		forwarded, finished := false, false
+		if c.When == "during" {
+			// wait until the write to T has begun (its first byte is buffered, the rest is blocked) ...
+			for tc.Near.Pending() == 0 && !finished && time.Now().Before(deadline) {
+				select {
+				case r := <-done:
+					done <- r
+					finished = true
+				default:
+					time.Sleep(100 * time.Microsecond)
+				}
+			}
+			if !finished && tc.Near.Pending() > 0 {
+				// ... the foreign answer arrives now; nobody reads T's connection meanwhile
+				w.hold = tc
+				out = inject(pendID)
+				w.hold = nil
+			}
+			finished = false
+			tc.Near.SetMaxBuffered(0) // the link drains: the write completes
+		}
+		// the request must show up on T's connection (or the asker is turned away at once)
 		for !forwarded && !finished && time.Now().Before(deadline) {
 			if tc.Near.Pending() > 0 {
 				p, err := tc.Recv(recvPatience)
@@ -769,7 +832,8 @@ func (w *world) stepResponse(sp *spec, c *Cell, rq *miniserver.Client, rid int64
 				continue
 			}
 			select {
-			case <-done:
+			case r := <-done:
+				done <- r
 				finished = true
 			default:
 				time.Sleep(100 * time.Microsecond)
@@ -777,11 +841,9 @@ func (w *world) stepResponse(sp *spec, c *Cell, rq *miniserver.Client, rid int64
 		}
 		if !forwarded {
 			// the legitimate request L->T was not forwarded: nothing is pending, nothing can be injected
-			if !finished {
-				select {
-				case <-done:
-				case <-time.After(recvPatience):
-				}
+			select {
+			case <-done:
+			case <-time.After(recvPatience):
 			}
 			for lc.Near.Pending() > 0 {
 				if _, err := lc.Recv(recvPatience); err != nil {
@@ -800,7 +862,9 @@ func (w *world) stepResponse(sp *spec, c *Cell, rq *miniserver.Client, rid int64
 			out = inject(pendID)
 		} else {
 			// the exchange helper would auto-answer for T; T's forwarded packet is already consumed, so it does not
-			out = inject(pendID)
+			if out == nil {
+				out = inject(pendID)
+			}
 			legit := func() {
 				switch sp.Type {
 				case packet.DNSResolve:
@@ -885,6 +949,9 @@ func (w *world) stepResponse(sp *spec, c *Cell, rq *miniserver.Client, rid int64
 		res.f = &fail{fmt.Sprintf("C11/%s/identity=%s/%s-%s-of-other-client", sp.Name, idClass(c.Identity, false), ch[0].Op, ch[0].Kind), fmt.Sprintf("%+v", ch[0])}
 		return
 	}
+	if out == nil {
+		out = &outcome{others: map[string][]*packet.TransferPacket{}}
+	}
 	for _, n := range sortedKeys(out.others) {
 		if len(out.others[n]) > 0 {
 			res.f = &fail{fmt.Sprintf("C11/%s/identity=%s/packet-delivered-to-other-client", sp.Name, cls), fmt.Sprintf("to %s: %s", n, pktString(out.others[n][0]))}
@@ -892,6 +959,6 @@ func (w *world) stepResponse(sp *spec, c *Cell, rq *miniserver.Client, rid int64
 		}
 	}
 	accepted := strings.Contains(got, injectedMarker)
-	res.summary = fmt.Sprintf("pending=%v accepted=%v replies=%d pushErr=%v", c.Pending, accepted, len(out.replies), out.pushErr != "")
+	res.summary = fmt.Sprintf("pending=%v when=%s accepted=%v replies=%d pushErr=%v", c.Pending, c.When, accepted, len(out.replies), out.pushErr != "")
 	return
 }
